@@ -44,7 +44,10 @@ func (o *c14Obs) runCmd(c c14Case) {
 		os.MkdirAll(filepath.Dir(p), 0o755)
 		os.WriteFile(p, f.Data, 0o644)
 	}
-	vb, _ := json.Marshal(deepCopyVals(c.Vals))
+	vb, _ := json.Marshal(c.userVals()) // exact cases: numbers as written
+	if c.ViaFlag {
+		vb = []byte("{}") // the values travel in --set / --set-json
+	}
 	vf := filepath.Join(dir, "user-values.json")
 	os.WriteFile(vf, vb, 0o644)
 	// keep helm's own files out of the real home directory
